@@ -137,14 +137,14 @@ Print Assumptions C20_one_line_per_entry.
    one has an except list — for every request, every handler outcome when an errors directive
    is present (panics included), every returning handler otherwise. *)
 Theorem C20_one_line_per_log_partial :
-  forall c cs tbl (haserr : bool) sc ds path ops ret,
+  forall c cs tbl (haserr hdrw : bool) sc ds path ops ret,
   uniform_scope sc ds -> exc_only_last ds -> (haserr = true \/ no_panic ops = true) ->
-  counts_ok cs ds 0 path (snd (site_serve c cs tbl haserr ds path ops ret)) = true.
+  counts_ok cs ds 0 path (snd (site_serve c cs tbl haserr hdrw ds path ops ret)) = true.
 Proof. exact site_one_line_per_log_partial. Qed.
 Print Assumptions C20_one_line_per_log_partial.
 
 Example C20_one_line_per_log_partial_nonvacuous :
-  snd (site_serve {| w_nethttp := true; w_head := false |} false [(404%Z, 14); (500%Z, 26)] true
+  snd (site_serve {| w_nethttp := true; w_head := false |} false [(404%Z, 14); (500%Z, 26)] true false
          [ {| d_scope := bs "/a"; d_except := [] |}; {| d_scope := bs "/a"; d_except := [bs "/a/b"] |} ]
          (bs "/a/x") [OPanic] 0%Z)
   = [(0%nat, 500%Z, 26); (1%nat, 500%Z, 26)].
@@ -157,7 +157,7 @@ Theorem C20_one_line_per_log_overlap_refuted :
   exists ds path ops ret,
   no_panic ops = true /\
   counts_ok false ds 0 path
-    (snd (site_serve {| w_nethttp := true; w_head := false |} false [(404%Z, 14)] true ds path ops ret)) = false.
+    (snd (site_serve {| w_nethttp := true; w_head := false |} false [(404%Z, 14)] true false ds path ops ret)) = false.
 Proof.
   exists [ {| d_scope := bs "/a"; d_except := [] |}; {| d_scope := bs "/"; d_except := [] |} ],
          (bs "/a/x"), [], 404%Z.
@@ -170,7 +170,7 @@ Theorem C20_one_line_per_log_except_refuted :
   exists sc ds path ops ret,
   uniform_scope sc ds /\ no_panic ops = true /\
   counts_ok false ds 0 path
-    (snd (site_serve {| w_nethttp := true; w_head := false |} false [(404%Z, 14)] true ds path ops ret)) = false.
+    (snd (site_serve {| w_nethttp := true; w_head := false |} false [(404%Z, 14)] true false ds path ops ret)) = false.
 Proof.
   exists (bs "/"),
          [ {| d_scope := bs "/"; d_except := [bs "/x"] |}; {| d_scope := bs "/"; d_except := [] |} ],
@@ -184,7 +184,7 @@ Print Assumptions C20_one_line_per_log_except_refuted.
        recover) but not logged *)
 Theorem C20_panic_logged_refuted :
   exists ds path ops ret,
-  site_serve {| w_nethttp := true; w_head := false |} false [(500%Z, 26)] false ds path ops ret
+  site_serve {| w_nethttp := true; w_head := false |} false [(500%Z, 26)] false false ds path ops ret
   = (500%Z, 26, []) /\ counts_ok false ds 0 path [] = false.
 Proof.
   exists [ {| d_scope := bs "/"; d_except := [] |} ], (bs "/x"), [OPanic], 0%Z.
@@ -208,28 +208,40 @@ Print Assumptions C20_logged_status_size_exact_partial.
 (* the same for a whole request through the site (errors directive and the server's own
    fallback included): the lines equal what the client sees *)
 Theorem C20_site_logged_exact_partial :
-  forall c cs tbl (haserr : bool) ds path ops ret,
+  forall c cs tbl (haserr hdrw : bool) ds path ops ret,
   w_head c = false ->
-  let flat := if haserr then errors_flat tbl ops ret else (ops, ret) in
+  let flat := inner_flat tbl haserr hdrw ops ret in
   no_panic (fst flat) = true -> wb (fst flat ++ fallback tbl 1 (snd flat)) = true ->
-  let '(st, sz, lines) := site_serve c cs tbl haserr ds path ops ret return Prop in
+  let '(st, sz, lines) := site_serve c cs tbl haserr hdrw ds path ops ret return Prop in
   forall l, In l lines -> snd (fst l) = st /\ snd l = sz.
 Proof. exact site_logged_exact. Qed.
 Print Assumptions C20_site_logged_exact_partial.
 
 Example C20_site_logged_exact_partial_nonvacuous :
-  site_serve {| w_nethttp := true; w_head := false |} false [(404%Z, 14)] false
+  site_serve {| w_nethttp := true; w_head := false |} false [(404%Z, 14)] false false
     [ {| d_scope := bs "/"; d_except := [] |} ] (bs "/x") [] 404%Z = (404%Z, 14, [(0%nat, 404%Z, 14)]) /\
-  site_serve {| w_nethttp := true; w_head := false |} false [] true
+  site_serve {| w_nethttp := true; w_head := false |} false [] true false
     [ {| d_scope := bs "/"; d_except := [] |} ] (bs "/x") [OWH 204%Z; OW 5 None] 0%Z = (204%Z, 0, [(0%nat, 204%Z, 0)]).
 Proof. vm_compute. split; reflexivity. Qed.
+
+(* with an errors directive and a header directive between log and the handler, the lines are
+   exact for EVERY handler script, contract-breaking and panicking ones included: errors turns
+   panics and error statuses into written responses and header's writer drops repeated
+   WriteHeader calls before they reach the recorder *)
+Theorem C20_site_exact_with_errors_and_header :
+  forall c cs tbl ds path ops ret,
+  w_head c = false ->
+  let '(st, sz, lines) := site_serve c cs tbl true true ds path ops ret return Prop in
+  forall l, In l lines -> snd (fst l) = st /\ snd l = sz.
+Proof. exact site_exact_with_errors_and_header. Qed.
+Print Assumptions C20_site_exact_with_errors_and_header.
 
 (* without the contract the status is not exact: the recorder keeps the LAST WriteHeader
    argument, the client got the first *)
 Theorem C20_logged_status_exact_refuted :
   exists ops ret,
   no_panic ops = true /\
-  site_serve {| w_nethttp := true; w_head := false |} false [] false
+  site_serve {| w_nethttp := true; w_head := false |} false [] false false
     [ {| d_scope := bs "/"; d_except := [] |} ] (bs "/x") ops ret = (200%Z, 3, [(0%nat, 500%Z, 3)]).
 Proof. exists [OWH 200%Z; OW 3 None; OWH 500%Z], 0%Z. vm_compute. split; reflexivity. Qed.
 Print Assumptions C20_logged_status_exact_refuted.
@@ -238,7 +250,7 @@ Print Assumptions C20_logged_status_exact_refuted.
 Theorem C20_logged_size_head_refuted :
   exists ops ret,
   wb (ops ++ fallback [(404%Z, 14)] 1 ret) = true /\
-  site_serve {| w_nethttp := true; w_head := true |} false [(404%Z, 14)] false
+  site_serve {| w_nethttp := true; w_head := true |} false [(404%Z, 14)] false false
     [ {| d_scope := bs "/"; d_except := [] |} ] (bs "/x") ops ret = (404%Z, 0, [(0%nat, 404%Z, 14)]).
 Proof. exists [], 404%Z. vm_compute. split; reflexivity. Qed.
 Print Assumptions C20_logged_size_head_refuted.
